@@ -1,11 +1,13 @@
 """C14 configuration (see lib/props.py for the format)."""
 
 PROP = dict(
-    harnesses={"c14_framing": dict(sources=["harness/c14_framing.cpp"])},
+    harnesses={"c14_framing": dict(sources=["harness/c14_framing.cpp"]), "c14_rpc": dict(sources=["harness/c14_rpc.cpp"])},
     legs=[
         dict(name="stream", harness="c14_framing", flavour="asan", mode="stream", quick=5000, thorough=300000),
         dict(name="hostile", harness="c14_framing", flavour="asan", mode="hostile", quick=40000, thorough=3000000),
-        dict(name="deepnest", harness="c14_framing", flavour="plain", mode="deepnest", quick=60, thorough=60, scalable=False,
+        dict(name="rpc", harness="c14_rpc", flavour="asan", mode="rpc", quick=6000, thorough=300000),
+        dict(name="pair", harness="c14_rpc", flavour="asan", mode="pair", quick=4000, thorough=200000),
+        dict(name="deepnest", harness="c14_framing", flavour="plain", mode="deepnest", quick=84, thorough=84, scalable=False,
              exhaustive=True, args=["--watchdog", "400"], case_timeout=300),
     ],
     rule="tbd",
